@@ -44,28 +44,9 @@ func checkC07(w *World, r *Report) {
 			if !ok {
 				return true
 			}
-			m, ok := w.Info.TypeOf(cl).Underlying().(*types.Map)
-			if !ok || !types.Identical(m.Elem(), filterT) {
+			bind, ok := w.registrationTable(cl, filterT)
+			if !ok {
 				return true
-			}
-			bind := map[string]types.Object{}
-			for _, el := range cl.Elts {
-				kv, ok := el.(*ast.KeyValueExpr)
-				if !ok {
-					continue
-				}
-				tv := w.Info.Types[kv.Key]
-				if tv.Value == nil || tv.Value.Kind() != constant.String {
-					continue
-				}
-				var obj types.Object
-				switch v := kv.Value.(type) {
-				case *ast.SelectorExpr:
-					obj = w.Info.Uses[v.Sel]
-				case *ast.Ident:
-					obj = w.Info.Uses[v]
-				}
-				bind[constant.StringVal(tv.Value)] = obj
 			}
 			e1, has1 := bind["escape"]
 			e2, has2 := bind["e"]
